@@ -33,7 +33,7 @@ func VerifC19_AcrossBlocks() {
 	if err := am.BeginBlock(e.ctx); err != nil {
 		verifFail("BeginBlock failed")
 	}
-	r1, err1 := srv.CreateRecord(e.ctx.WithTxBytes(tx), &types.MsgCreateRecord{Contents: contentA, Creator: creator.String()})
+	r1, err1 := srv.CreateRecord(e.ctx.WithTxBytes(tx), &types.MsgCreateRecord{Contents: append([]types.Content{}, contentA...), Creator: creator.String()})
 	verifAssert(err1 == nil, "record creation succeeds")
 	id1, _ := hex.DecodeString(r1.Id)
 	got1, _ := k.GetRecord(e.ctx, id1)
@@ -63,7 +63,7 @@ func VerifC19_AcrossBlocks() {
 		it.Close()
 		got1, _ = k.GetRecord(ctx, id1)
 	}
-	r2, err2 := srv.CreateRecord(ctx.WithTxBytes(tx), &types.MsgCreateRecord{Contents: second, Creator: creator.String()})
+	r2, err2 := srv.CreateRecord(ctx.WithTxBytes(tx), &types.MsgCreateRecord{Contents: append([]types.Content{}, second...), Creator: creator.String()})
 	verifAssert(err2 == nil, "second creation succeeds")
 	id2, _ := hex.DecodeString(r2.Id)
 	if same {
